@@ -69,6 +69,10 @@ func ZipFile(file string, w io.Writer) error {
 func ZipDir(dir string, w io.Writer) error {
 	ar := zip.NewWriter(w)
 	walk := func(p string, info os.FileInfo, err error) error {
+		if err != nil {
+			return err
+		}
+
 		rel, err := filepath.Rel(dir, p)
 		if err != nil {
 			return err
